@@ -38,9 +38,10 @@ def gen_params(rnd, name, box, opts=None):
     if name == "element_lic":
         return [rnd.randint(lo - 1, hi + 1)]
     if name == "exactly_eq":
-        return [rnd.randint(lo - 1, hi + 1), rnd.randint(0, n)]
+        # counts outside 0..n are legal parameters of the documented relation (which is then unsatisfiable)
+        return [rnd.randint(lo - 1, hi + 1), rnd.randint(0, n) if rnd.random() < 0.85 else rnd.choice([-2, -1, n + 1, n + 2])]
     if name == "exactly_true":
-        return [rnd.randint(0, n)]
+        return [rnd.randint(0, n) if rnd.random() < 0.85 else rnd.choice([-2, -1, n + 1, n + 2])]
     if name == "gcc":
         v0 = lo - rnd.randint(0, 1)
         m = hi - v0 + 1 + rnd.randint(0, 1)
@@ -270,10 +271,10 @@ def enum_params(name, n, lo, hi, scope):
                 yield list(l)
     elif name == "exactly_eq":
         for a in range(lo - 1, hi + 2):
-            for c in range(0, n + 1):
+            for c in range(-1, n + 2):
                 yield [a, c]
     elif name == "exactly_true":
-        for c in range(0, n + 1):
+        for c in range(-1, n + 2):
             yield [c]
     elif name == "gcc":
         m = hi - lo + 1
